@@ -172,6 +172,7 @@ func zzC13Release() {
 	otherSeid := seid + 1
 	h.q[otherSeid<<16|10] = [][]byte{{0x77}}
 	getFarIDs := []uint32{}
+	updates := 0
 	k.reply = func(k *zzKernel, r zzReq) ([]nl.Msg, error) {
 		attrs := r.b[4:]
 		switch r.b[0] {
@@ -181,7 +182,16 @@ func zzC13Release() {
 			zzAssert("C13.release.get-far.own-session", len(s) == 8 && zzLE64(s) == seid)
 			getFarIDs = append(getFarIDs, zzLE32(id))
 			return zzFARMsg(seid, farid, f), nil
+		case gtp5gnl.CMD_ADD_FAR:
+			// the update itself: must address the FAR named in the IE, whatever was looked up before
+			id, ok1 := zzFindAttr(attrs, gtp5gnl.FAR_ID, 0)
+			s, ok2 := zzFindAttr(attrs, gtp5gnl.FAR_SEID, 0)
+			zzAssert("C13.release.update-addresses-the-far", ok1 && ok2 && len(id) == 4 && len(s) == 8 && zzLE32(id) == farid && zzLE64(s) == seid)
+			updates++
+			return nil, nil
 		case gtp5gnl.CMD_GET_PDR:
+			s, _ := zzFindAttr(attrs, gtp5gnl.PDR_SEID, 0)
+			zzAssert("C13.release.get-pdr.own-session", len(s) == 8 && zzLE64(s) == seid)
 			id, _ := zzFindAttr(attrs, gtp5gnl.PDR_ID, 0)
 			var qs []uint32
 			for i := 0; i < f.nqer; i++ {
@@ -210,6 +220,7 @@ func zzC13Release() {
 		zzAssert("C13.release.looks-up-the-updated-far", id == farid)
 	}
 	zzAssert("C13.release.looked-up-once", len(getFarIDs) == 1)
+	zzAssert("C13.release.one-update-request", updates == 1)
 	// never a packet of another session or of a PDR the FAR does not serve
 	for _, kk := range h.popped {
 		rel := false
